@@ -83,6 +83,15 @@ def build_case(rng):
             rc["on_missing"] = rng.choice(["ignore", "warn", "error"])
     if run_map:
         rc["map"] = run_map
+    if rng.random() < 0.2:
+        # cacheable nodes over a backend whose k-th write fails: the failure surfaces through the node that was storing
+        some = False
+        for path, n in __import__("harness.props.c11", fromlist=["leaves"]).leaves(g):
+            if rng.random() < 0.6:
+                n["cache"] = True
+                some = True
+        if some:
+            rc["cache"] = {"fail_on": rng.randint(1, 3)}
     return fam, g, rc
 
 
